@@ -31,6 +31,8 @@
 #include <string>
 #include <unordered_set>
 #include <vector>
+#include <fcntl.h>
+#include <sys/mman.h>
 #include <unistd.h>
 
 #if defined(__SANITIZE_ADDRESS__) || defined(__SANITIZE_THREAD__)
@@ -242,6 +244,41 @@ inline void crashSignal(int sig) {
   raise(sig);
 }
 
+// The case under evaluation is mirrored into a memory mapped file (<out>/current.bin: 8 byte
+// length + text), so that it survives every kind of death (sanitizer abort, assert, SIGKILL).
+struct CurrentCaseFile {
+  char *map = nullptr;
+  size_t cap = 0;
+  int fd = -1;
+  void open(const std::string &path, size_t capacity) {
+    fd = ::open(path.c_str(), O_RDWR | O_CREAT | O_TRUNC, 0644);
+    if (fd < 0) return;
+    cap = capacity;
+    if (ftruncate(fd, static_cast<off_t>(cap)) != 0) { ::close(fd); fd = -1; return; }
+    void *m = mmap(nullptr, cap, PROT_READ | PROT_WRITE, MAP_SHARED, fd, 0);
+    if (m == MAP_FAILED) { ::close(fd); fd = -1; return; }
+    map = static_cast<char *>(m);
+  }
+  void store(const std::string &text) {
+    if (!map) return;
+    if (text.size() + 8 > cap) {
+      size_t ncap = (text.size() + 8) * 2;
+      munmap(map, cap);
+      map = nullptr;
+      if (ftruncate(fd, static_cast<off_t>(ncap)) != 0) return;
+      void *m = mmap(nullptr, ncap, PROT_READ | PROT_WRITE, MAP_SHARED, fd, 0);
+      if (m == MAP_FAILED) return;
+      map = static_cast<char *>(m);
+      cap = ncap;
+    }
+    uint64_t n = text.size();
+    memcpy(map + 8, text.data(), text.size());
+    memcpy(map, &n, 8);
+  }
+  void clear() { if (map) { uint64_t n = 0; memcpy(map, &n, 8); } }
+};
+inline CurrentCaseFile &currentCaseFile() { static CurrentCaseFile f; return f; }
+
 // ---------------------------------------------------------------- mode registry
 struct ModeBase {
   virtual ~ModeBase() = default;
@@ -264,10 +301,12 @@ std::string evalCase(const Case &c, const std::function<std::string(const Case &
   rs.currentCase = [&]() { return show(c); };
   st.caseNontrivial = false;
   if (!st.frozen) ++st.evaluations;
+  std::string text = show(c);
+  currentCaseFile().store(text);
   std::string msg = run(c);
+  currentCaseFile().clear();
   if (!st.frozen && st.caseNontrivial) {
     ++st.nontrivial;
-    std::string text = show(c);
     if (st.fingerprints.size() < st.fpCap) {
       bool fresh = st.fingerprints.insert(fnv1a(text)).second;
       if (fresh && st.samples.size() < 6 && (st.fingerprints.size() % 97 == 1 || st.samples.size() < 2))
@@ -418,6 +457,7 @@ inline int harnessMain(int argc, char **argv) {
     try { text = readFile(replayFile); } catch (const std::exception &e) { std::cerr << e.what() << "\n"; return 2; }
     return it->second->replay(text);
   }
+  if (!out.empty()) currentCaseFile().open(out + "/current.bin", 1 << 16);
   if (doEnum) return it->second->enumerate();
   std::string params = "seed=" + seed + " max_success=" + cases + " max_size=" + size +
                        " max_discard_ratio=20 noshrink=0";
